@@ -12,10 +12,71 @@ ASSUMPTIONS = ['READ_LINE events inside attempts are all the references evaluate
 def plan(tier, seed):
     sp = progwork.shards(tier, 2500, 150000)
     from hv import realwork
+    sp += [{'kind': 'cli', 'year': y, 'n': 4 if tier == 'quick' else 60} for y in (2021, 2022, 2023)]
     return sp + realwork.shards('C04', tier)
 
 
+def run_cli(spec, tier, seed):
+    """The same closure at the command line: `habutax solve --form X ... --solution f`
+    must write exactly the sections and lines that the Solver API produces for the
+    same request on the same file (requests that do and do not lead to Form 1040)."""
+    import os
+    import tempfile
+    from hv import scen, cli, hx, drive
+    from hv.monitors.c20 import write_ini, parse
+    res = Result()
+    year = spec['year']
+    tmp = tempfile.mkdtemp(prefix='hv_c04_')
+    try:
+        for k in range(spec['n']):
+            fam = ['F2', 'F8', 'F4', 'F5', 'F0', 'F9'][k % 6]
+            p = scen.Persona(year, fam, f'c04cli:{seed}:{k}')
+            out0 = scen.solve_persona(p)
+            if out0.exc is not None:
+                continue
+            path = os.path.join(tmp, 'in.ini')
+            write_ini(path, p.answers)
+            requests = [p.forms(), list(reversed(p.forms()))]
+            for f in sorted(out0.solver.forms):
+                base = f.split(':')[0]
+                if base in ('w-2', '1099-int', '1099-div', '1098', '1099-r', '1099-g') and [f] not in requests:
+                    requests.append([f])
+            for req in requests[:6]:
+                sol = os.path.join(tmp, 'sol.ini')
+                if os.path.exists(sol):
+                    os.remove(sol)
+                args = ['solve', path, '--year', str(year), '--solution', sol]
+                for f in req:
+                    args += ['--form', f]
+                r = cli.run_cli(args)
+                api = drive.run_solver(hx.catalogue(year), path, req, use_prompt=False)
+                res.evaluations += 1
+                res.count('cli_closure_checks')
+                rp = {'engine': 'cli', 'persona': p.describe(), 'request': req, 'shard': spec}
+                if (r.exc is not None) != (api.exc is not None):
+                    res.violation('C04|cli|abort-disagrees', f'{year} --form {req}: CLI {type(r.exc).__name__ if r.exc else "finished"}, API {type(api.exc).__name__ if api.exc else "finished"}', rp)
+                    continue
+                if r.exc is not None or not os.path.exists(sol):
+                    continue
+                got = {k_ for k_ in parse(sol) if not k_.startswith('habutax.')}
+                exp = {f'{s_}.{k_}' for s_, kv in drive.solution_map(api).items() for k_ in kv}
+                res.distinct.add(f'cli|{year}|{"+".join(x.split(":")[0] for x in req)}')
+                if got != exp:
+                    extra = sorted(got - exp)[:4]
+                    missing = sorted(exp - got)[:4]
+                    res.violation('C04|cli|solution-ne-api-closure', f'{year} `solve --form {" --form ".join(req)}` wrote a solution that differs from the closure of that request: '
+                                  f'extra {extra} ({len(got - exp)} lines, forms {sorted({x.split(".")[0] for x in got - exp})[:4]}), missing {missing}', rp)
+                if len(res.samples) < 1:
+                    res.sample({'cmd': ' '.join(args[2:]), 'sections_written': sorted({x.split('.')[0] for x in got})})
+    finally:
+        import shutil
+        shutil.rmtree(tmp, ignore_errors=True)
+    return res
+
+
 def run_shard(spec, tier, seed):
+    if spec['kind'] == 'cli':
+        return run_cli(spec, tier, seed)
     if spec['kind'] == 'real':
         from hv import realwork
         return realwork.run_shard('C04', spec, tier, seed)
@@ -46,6 +107,8 @@ def run_shard(spec, tier, seed):
 
 
 def finalize(res, tier):
+    if res.counters.get('cli_closure_checks', 0) < 20:
+        res.inconclusive.append('fewer than 20 command-line closure checks')
     if res.counters.get('solved_runs_pulling_forms', 0) < 30:
         res.inconclusive.append('fewer than 30 solved runs pulled a form in by reference')
     return {}
